@@ -2,11 +2,12 @@
 (* Constant sets for the model-checking configurations of Core (one .cfg per property group). *)
 EXTENDS MCCore
 
-W0(nm, np, G, Wd) == [n |-> nm, np |-> np, G |-> G, W |-> Wd, sing |-> FALSE, resp |-> TRUE, auto |-> TRUE, prio |-> 0,
+W0(nm, np, G, Wd) == [n |-> nm, ln |-> nm, np |-> np, G |-> G, W |-> Wd, sing |-> FALSE, resp |-> TRUE, auto |-> TRUE, prio |-> 0,
                       ssig |-> 15, sch |-> FALSE, hup |-> FALSE, hooks |-> <<>>, retry |-> 2]
 Rq(cmd, nm, waiting) == [cmd |-> cmd, name |-> nm, lname |-> nm, hasname |-> nm # "", mid |-> "", waiting |-> waiting,
             cast |-> FALSE, pid |-> -1, signum |-> -1, children |-> FALSE, recursive |-> FALSE, childpid |-> -1,
-            nb |-> 1, G |-> -1, nostop |-> FALSE, graceful |-> TRUE, sequential |-> FALSE, raw |-> FALSE]
+            nb |-> 1, G |-> -1, nostop |-> FALSE, graceful |-> TRUE, sequential |-> FALSE, raw |-> FALSE,
+            start |-> FALSE, addnp |-> 1, addG |-> 1, addW |-> 0, addsing |-> FALSE]
 D(cd, wg, ws) == [cd |-> cd, wg |-> wg, ws |-> ws, obeyset |-> {TRUE}]
 Stubborn(c) == [c EXCEPT !.obeyset = {FALSE}]
 Mixed(c) == [c EXCEPT !.obeyset = {TRUE, FALSE}]
@@ -100,6 +101,15 @@ c05q_Configs == { Stubborn(D(3, 0, <<W0("w1", 2, 2, 0)>>)) }
 c19q_Configs == { D(8, wg, <<Wp("w1", 1, 0, p1, TRUE), Wp("w2", 2, 2, 1, TRUE), Wp("w3", 1, 0, 0, a3)>>) :
                    wg \in {0, 1}, p1 \in {0, 1}, a3 \in BOOLEAN }
 st_three == {0, 65280, 9}
+
+\* ---- C15: the watcher directory under add / rm with case variants and the empty name
+RqN(cmd, nm, lnm, waiting) == [Rq(cmd, lnm, waiting) EXCEPT !.name = nm, !.hasname = TRUE]
+c15_Configs == { D(4, 0, <<W0("a", 1, 1, 0)>>), D(4, 0, <<W0("a", 1, 0, 0), W0("b", 0, 0, 0)>>) }
+c15_Requests == { RqN("add", "b", "b", FALSE), [RqN("add", "A", "a", FALSE) EXCEPT !.start = TRUE],
+                  [RqN("add", "Ab", "ab", FALSE) EXCEPT !.start = TRUE, !.addnp = 2],
+                  RqN("add", "", "", FALSE), [RqN("add", "", "", FALSE) EXCEPT !.start = TRUE],
+                  RqN("rm", "A", "a", TRUE), [RqN("rm", "a", "a", FALSE) EXCEPT !.nostop = TRUE], RqN("rm", "aB", "ab", FALSE),
+                  RqN("stop", "A", "a", TRUE), RqN("start", "AB", "ab", FALSE), RqN("status", "B", "b", FALSE) }
 
 st_one == {256}
 st_exit == {0, 256, 65280}
